@@ -231,6 +231,23 @@ def run_job(job, unit, workdir, log=print):
         head, _, rest = text.partition('/* ---- end types ---- */')
         if mode == 'dfcc':
             htext = harness_text(lw, job['fn'], ghosts, hname)
+        elif mode == 'harness':
+            # loop-free / constant-bound harness: assume requires, call the real (lowered) function, assert ensures.
+            # Callees without a body are stubs whose bodies come from the spec (trusted, listed in the evidence).
+            import replay as RP
+            raw = job.get('specs', {})
+            text, lw = lowered_text(ast, job['roots'], {k: {kk: vv for kk, vv in v.items() if kk == 'ghost_returns'} for k, v in raw.items()},
+                                    cuts=job.get('cuts', ()), drop_contracts=True)
+            hg = RP.HarnessGen(lw, job['fn'], raw[job['fn']], ghosts, K=job.get('harness_K', 6), fixed=job.get('fixed'))
+            htext = '#define QX_WITH_CANARY 1\n' + RP.CBMC_PRE + hg.build()
+            for cn, inf in lw.fn_info.items():
+                if not inf['has_body']:
+                    body = raw.get(cn, {}).get('stub_body')
+                    if body is None:
+                        raise Undecided('harness mode: no stub body for %s' % cn)
+                    htext = lw.proto(inf['node']) + '\n{\n' + body + '\n}\n' + htext
+            res.functions = [dict(cname=i['cname'], qualname=i['qualname'], file=str(i['file']), lines=i['lines'],
+                                  hash=i.get('hash'), has_body=i['has_body']) for i in lw.fn_info.values()]
         else:
             htext = job['harness']
         # split: types+globals first, then ghosts/pre, then functions
@@ -305,21 +322,64 @@ def run_job(job, unit, workdir, log=print):
         flags, env = solver_flags(job.get('solver'), workdir)
         checks = job.get('checks', DEFAULT_CHECKS)
         cmd = ['cbmc', cur, '--json-ui', '--object-bits', str(job.get('objbits', 10))] + checks + flags
+        if mode == 'harness':
+            cmd += ['--no-malloc-may-fail', '--unwind', str(job.get('harness_unwind', 8)), '--unwinding-assertions']
         for p in job.get('properties', []):
             cmd += ['--property', p]
         if job.get('cbmc_flags'):
             cmd += job['cbmc_flags']
-        rc, out, err, dt = sh(cmd, job.get('timeout', 300), env=env)
-        res.cmds.append(' '.join(cmd))
-        res.solver_seconds = dt
-        with open(os.path.join(jd, 'cbmc.json'), 'w') as f:
-            f.write(out)
-        if rc == -9:
-            raise Undecided('solver timeout after %ss' % job.get('timeout', 300))
-        results, status, msgs = parse_cbmc_json(out)
-        res.log = '\n'.join(msgs)[-4000:]
-        if results is None or status is None or (rc not in (0, 10)):
-            raise Undecided('cbmc error rc=%s: %s' % (rc, (res.log or err or out)[-2000:]))
+        nsplit = int(job.get('split', 0) or 0)
+        if nsplit > 1 and not job.get('properties'):
+            # one group of obligations per solver call (all-properties mode re-solves incrementally and can be far slower)
+            rc0, out0, err0, dt0 = sh(['cbmc', cur, '--show-properties', '--json-ui'] + checks, 300)
+            names = []
+            try:
+                for x in json.loads(out0):
+                    if 'properties' in x:
+                        names = [p['name'] for p in x['properties']]
+            except Exception:
+                raise Undecided('cannot list properties for split: ' + (err0 or out0)[-500:])
+            if not names:
+                raise Undecided('vacuity guard: zero obligations listed')
+            groups = [names[i::nsplit] for i in range(nsplit)]
+            groups = [g for g in groups if g]
+            t0 = time.time()
+
+            def one(g):
+                c = list(cmd)
+                for p in g:
+                    c += ['--property', p]
+                return sh(c, job.get('timeout', 300), env=env)
+            with ThreadPoolExecutor(max_workers=len(groups)) as ex:
+                outs = list(ex.map(one, groups))
+            res.cmds.append(' '.join(cmd) + '   # split into %d property groups' % len(groups))
+            res.solver_seconds = time.time() - t0
+            results, status, msgs = [], 'success', []
+            for (rc, out, err, dt) in outs:
+                if rc == -9:
+                    raise Undecided('solver timeout after %ss (split group)' % job.get('timeout', 300))
+                r_, s_, m_ = parse_cbmc_json(out)
+                if r_ is None or s_ is None or rc not in (0, 10):
+                    raise Undecided('cbmc error rc=%s: %s' % (rc, ('\n'.join(m_ or []) or err or out)[-2000:]))
+                results += r_
+                msgs += m_
+                if s_ != 'success':
+                    status = s_
+            out = ' '.join(m for m in msgs)
+            res.log = '\n'.join(msgs)[-4000:]
+            rc = 0 if status == 'success' else 10
+        else:
+            rc, out, err, dt = sh(cmd, job.get('timeout', 300), env=env)
+            res.cmds.append(' '.join(cmd))
+            res.solver_seconds = dt
+            with open(os.path.join(jd, 'cbmc.json'), 'w') as f:
+                f.write(out)
+            if rc == -9:
+                raise Undecided('solver timeout after %ss' % job.get('timeout', 300))
+            results, status, msgs = parse_cbmc_json(out)
+            res.log = '\n'.join(msgs)[-4000:]
+            if results is None or status is None or (rc not in (0, 10)):
+                raise Undecided('cbmc error rc=%s: %s' % (rc, (res.log or err or out)[-2000:]))
         if 'ignoring forall' in out or 'ignoring exists' in out:
             if job.get('solver') not in ('z3', 'z3new', 'cvc5'):
                 raise Undecided('SAT back end ignored a quantifier; result not trustworthy')
@@ -327,6 +387,12 @@ def run_job(job, unit, workdir, log=print):
             sl = r.get('sourceLocation', {})
             res.obligations.append(dict(name=r['property'], status=r['status'], description=r.get('description', ''),
                                         file=sl.get('file', ''), line=sl.get('line', ''), function=sl.get('function', '')))
+        if mode == 'harness':
+            can = [o for o in res.obligations if 'qx-canary' in o['description']]
+            if not can or can[0]['status'] != 'FAILURE':
+                raise Undecided('vacuity guard: harness canary did not fail (preconditions contradictory or end unreachable)')
+            res.canary = 'failed-as-required'
+            res.obligations = [o for o in res.obligations if 'qx-canary' not in o['description']]
         if not res.obligations:
             raise Undecided('vacuity guard: zero obligations generated')
         exp = job.get('must_have', [])
@@ -353,10 +419,29 @@ def run_job(job, unit, workdir, log=print):
     return res
 
 
+_cap_lock = threading.Condition()
+_cap = {'free': 16}
+
+
+def run_job_weighted(job, unit, workdir):
+    w = min(int(job.get('weight', 1)), 16)
+    with _cap_lock:
+        while _cap['free'] < w:
+            _cap_lock.wait()
+        _cap['free'] -= w
+    try:
+        return run_job(job, unit, workdir)
+    finally:
+        with _cap_lock:
+            _cap['free'] += w
+            _cap_lock.notify_all()
+
+
 def run_jobs(jobs_units, workdir, par=16, log=print):
     out = []
-    with ThreadPoolExecutor(max_workers=par) as ex:
-        futs = [(j, ex.submit(run_job, j, u, workdir)) for j, u in jobs_units]
+    _cap['free'] = par
+    with ThreadPoolExecutor(max_workers=max(par, 4) * 2) as ex:
+        futs = [(j, ex.submit(run_job_weighted, j, u, workdir)) for j, u in jobs_units]
         for j, f in futs:
             r = f.result()
             tot, ok, bad = r.counts()
